@@ -866,7 +866,11 @@ impl PgSession {
                     let tags = sqlmini::find_tags(sql.as_bytes());
                     let tag = tags.first().map(|t| t.to_string()).unwrap_or_default();
                     out.push(proto::copy_out_response());
+                    let fail_after = sqlmini::directive(sql, "sim_error_after").map(|k| k as usize);
                     for i in 0..n {
+                        if fail_after == Some(i) {
+                            return Err(("XX000".into(), format!("sim_error_after {} rows of COPY {}", i, tag)));
+                        }
                         let mut line = format!("{}\t{}\t{}\t", tag, self.pid, i).into_bytes();
                         line.extend(std::iter::repeat(b'x').take(pad));
                         line.push(b'\n');
@@ -932,7 +936,11 @@ impl PgSession {
                         (start, count, suspended)
                     }
                 };
+                let fail_after = sqlmini::directive(sql, "sim_error_after").map(|k| k as usize);
                 for i in start..start + count {
+                    if fail_after == Some(i) {
+                        return Err(("XX000".into(), format!("sim_error_after {} rows {}", i, tag)));
+                    }
                     let n = i.to_string();
                     out.push(proto::data_row(&[tag.as_bytes(), pid.as_bytes(), n.as_bytes(), &pjoined, &padv]));
                 }
